@@ -388,8 +388,11 @@ def tobool(o):
     raise Unsupported("tobool(%s)" % type(o).__name__)
 
 
+SYMTYPES = []      # filled below; fp.py appends SymFP
+
+
 def is_sym(x):
-    return isinstance(x, (SymBool, SymInt, SymReal, SymStr))
+    return isinstance(x, tuple(SYMTYPES))
 
 
 # --------------------------------------------------------------------------- SymInt
@@ -834,6 +837,10 @@ def symx_div(a, b):
         if b == 0:
             raise ZeroDivisionError("division by zero")
         return RFloat(Fraction(a, b))
+    if is_sym(b) and hasattr(a, "item") and not is_sym(a):
+        a = a.item()          # numpy scalar / proxy: keep numpy from treating the proxy as an array
+    elif is_sym(a) and hasattr(b, "item") and not is_sym(b):
+        b = b.item()
     return a / b
 
 
@@ -1299,13 +1306,15 @@ def s_int(x=0, base=10):
         return SymInt.lift(x)
     if isinstance(x, SymReal):
         return real_trunc(x)
+    if type(x).__name__ == "SymFP":
+        return x.to_int()
     if isinstance(x, str):
         return builtins.int(x, base)
     return builtins.int(x)
 
 
 def s_float(x=0.0):
-    if isinstance(x, SymReal):
+    if isinstance(x, SymReal) or type(x).__name__ == "SymFP":
         return x
     if isinstance(x, (SymInt, SymBool)):
         return SymReal.of(x)
@@ -1324,7 +1333,7 @@ def s_isinstance(o, t):
         return str in ts
     if isinstance(o, SymInt):
         return int in ts
-    if isinstance(o, SymReal):
+    if isinstance(o, SymReal) or type(o).__name__ == "SymFP":
         return float in ts
     if isinstance(o, SymBool):
         return bool in ts or int in ts
@@ -1358,7 +1367,7 @@ def s_max(*a, **k):
 
 
 def s_abs(x):
-    if isinstance(x, (SymInt, SymReal)):
+    if isinstance(x, (SymInt, SymReal)) or type(x).__name__ == "SymFP":
         return x.__abs__()
     return builtins.abs(x)
 
@@ -1411,6 +1420,8 @@ def s_wrap(s, n):
     import textwrap
     return textwrap.wrap(s, n)
 
+
+SYMTYPES += [SymBool, SymInt, SymReal, SymStr]
 
 PATCH = dict(int=s_int, float=s_float, bin=s_bin, isinstance=s_isinstance, min=s_min, max=s_max, abs=s_abs,
              set=s_set, str=s_str, chr=s_chr, format=s_format)
